@@ -71,20 +71,22 @@ Lemma updatetflag_coherent h g :
 Proof.
   unfold updatetflag, tflag_keep_ok. intros H R K.
   pose proof (coh_rest_elim _ R) as (_ & VD & _).
-  assert (OW : (Nat.eqb (vardim h) 0 || Nat.eqb (nt h) 0 || negb (no_rollover h (nt h))) = false ->
-               coherentb (set_meta h (nvars h) (varlist h) (vardim h) (Some (vardim h, rebuilt h (nt h))) (sdate h) (stime h)) = true).
-  { intros C. apply orb_false_iff in C as [C _]. apply orb_false_iff in C as [C1 C2]. apply Nat.eqb_neq in C2.
-    destruct (rebuilt_head h (nt h) C2) as [t Ht].
-    unfold coherentb. apply andb_true_iff. split.
+  (* every re-created TFLAG: second axis = VAR = NVARS, first row = the new SDATE/STIME *)
+  assert (OW : forall rows sd st, (exists t, rows = (sd, st) :: t) ->
+               coherentb (set_meta h (nvars h) (varlist h) (vardim h) (Some (vardim h, rows)) sd st) = true).
+  { intros rows sd st [t ->]. unfold coherentb. apply andb_true_iff. split.
     - destruct h; unfold coh_rest in *; simpl in *; exact R.
-    - unfold tflag_part. simpl. rewrite Ht. rewrite VD, Nat.eqb_refl. simpl.
-      destruct h; simpl. apply pair_eqb_same. }
-  destruct (tflag h) as [[s1 rows]|] eqn:ET.
-  - destruct (Nat.eqb s1 (nvars h)) eqn:E; simpl in H.
-    + inv H. unfold coherentb. rewrite R. unfold tflag_part. rewrite ET. destruct rows as [|r0 rows]; [discriminate|].
-      rewrite E, K. reflexivity.
-    + match type of H with (if ?c then _ else _) = _ => destruct c eqn:C; [discriminate|] end. inv H. apply OW; reflexivity.
-  - simpl in H. match type of H with (if ?c then _ else _) = _ => destruct c eqn:C; [discriminate|] end. inv H. apply OW; reflexivity.
+    - unfold tflag_part. simpl. rewrite VD, Nat.eqb_refl. simpl. apply pair_eqb_same. }
+  match type of H with (if ?c then _ else _) = _ => destruct c eqn:OV end.
+  - match type of H with (if ?c then _ else _) = _ => destruct c eqn:C0; [discriminate|] end.
+    apply orb_false_iff in C0 as [C1 C2]. apply Nat.eqb_neq in C2.
+    match type of H with match ?k with _ => _ end = _ => destruct k as [[r0 rest]|] eqn:EK end.
+    + inv H. apply OW. destruct r0. simpl. eauto.
+    + match type of H with (if ?c then _ else _) = _ => destruct c; [discriminate|] end. inv H.
+      apply OW. apply rebuilt_head. exact C2.
+  - inv H. destruct (tflag g) as [[s1 rows]|] eqn:ET; [|discriminate].
+    apply negb_false_iff in OV. unfold coherentb. rewrite R. unfold tflag_part. rewrite ET.
+    rewrite OV in K. destruct rows as [|r0 rows]; [discriminate|]. rewrite OV, K. reflexivity.
 Qed.
 
 (* VAR-LIST after getVarlist(update=True) *)
@@ -177,11 +179,12 @@ Proof.
 Qed.
 
 Lemma slice_coherent f sels g :
-  coherentb f = true -> impl_slice f sels = Ok g -> coherentb g = true.
+  coherentb f = true -> iop_region f (ISlice sels) = 0%nat -> impl_slice f sels = Ok g -> coherentb g = true.
 Proof.
-  intros C H. apply coherent_elim in C as [R T]. unfold impl_slice in H.
+  intros C Rg H. apply coherent_elim in C as [R T]. unfold impl_slice in H.
   match type of H with (if ?c then _ else _) = _ => destruct c; [discriminate|] end.
   destruct (tflag_part_elim _ T) as (s1 & r0 & t & ET & ES & ER). rewrite ET in H.
+  simpl in Rg. destruct (Nat.leb (nlists sels) 1); [|discriminate].
   pose proof (coh_rest_elim _ R) as (H1 & H2 & H3 & H4 & H5 & H6 & H7 & H8 & H9).
   pose proof (newvl_coherent _ R) as NV. pose proof (varlist_nonempty _ R) as NE.
   bindinv H.
@@ -316,21 +319,27 @@ Qed.
 
 (* ---- field preservation of updatetflag / updatemeta ------------------------------------------------------------- *)
 Lemma updatetflag_fields h g : updatetflag h = Ok g ->
-  nl g = nl h /\ nvgl g = nvgl h /\ sdate g = sdate h /\ stime g = stime h /\ dvars g = dvars h /\ varlist g = varlist h.
+  nl g = nl h /\ nvgl g = nvgl h /\ dvars g = dvars h /\ varlist g = varlist h
+  /\ (tflag h = None -> sdate g = sdate h /\ stime g = stime h).
 Proof.
   unfold updatetflag. intros H.
   match type of H with (if ?c then _ else _) = _ => destruct c end.
-  - match type of H with (if ?c then _ else _) = _ => destruct c; [discriminate|] end. inv H. simpl. repeat split; reflexivity.
-  - inv H. repeat split; reflexivity.
+  - match type of H with (if ?c then _ else _) = _ => destruct c; [discriminate|] end.
+    match type of H with match ?k with _ => _ end = _ => destruct k as [[r0 rest]|] eqn:EK end.
+    + inv H. simpl. do 4 (split; [reflexivity|]). intros TN. rewrite TN in EK. discriminate.
+    + match type of H with (if ?c then _ else _) = _ => destruct c; [discriminate|] end. inv H. simpl.
+      do 4 (split; [reflexivity|]). intros _. split; reflexivity.
+  - inv H. do 4 (split; [reflexivity|]). intros _. split; reflexivity.
 Qed.
 Lemma updatemeta_fields f g : updatemeta f = Ok g ->
-  nl g = nl f /\ nvgl g = nvgl f /\ sdate g = sdate f /\ stime g = stime f /\ dvars g = dvars f.
+  nl g = nl f /\ nvgl g = nvgl f /\ dvars g = dvars f.
 Proof.
-  unfold updatemeta. intros H. apply updatetflag_fields in H as (H1 & H2 & H3 & H4 & H5 & _). simpl in *. repeat split; assumption.
+  unfold updatemeta. intros H. apply updatetflag_fields in H as (H1 & H2 & H3 & _). simpl in *. repeat split; assumption.
 Qed.
 Lemma copy_fields f g : impl_copy f = Ok g -> sdate g = sdate f /\ stime g = stime f /\ dvars g = dvars f.
 Proof.
-  unfold impl_copy. intros H. apply updatetflag_fields in H as (_ & _ & H3 & H4 & H5 & _). simpl in *. repeat split; assumption.
+  unfold impl_copy. intros H. apply updatetflag_fields in H as (_ & _ & H3 & _ & H5). simpl in *.
+  destruct (H5 eq_refl) as [S1 S2]. repeat split; assumption.
 Qed.
 
 Lemma filter_nonempty {A} (p : A -> bool) x l : In x l -> p x = true -> filter p l <> [].
@@ -462,7 +471,10 @@ Lemma updatemeta_unlimited f g : updatemeta f = Ok g -> ts_unl g = true.
 Proof.
   unfold updatemeta, updatetflag. intros H.
   match type of H with (if ?c then _ else _) = _ => destruct c end.
-  - match type of H with (if ?c then _ else _) = _ => destruct c; [discriminate|] end. inv H. reflexivity.
+  - match type of H with (if ?c then _ else _) = _ => destruct c; [discriminate|] end.
+    match type of H with match ?k with _ => _ end = _ => destruct k as [[r0 rest]|] end.
+    + inv H. reflexivity.
+    + match type of H with (if ?c then _ else _) = _ => destruct c; [discriminate|] end. inv H. reflexivity.
   - inv H. reflexivity.
 Qed.
 
